@@ -14,6 +14,7 @@ package main
 import (
 	"fmt"
 	"math/big"
+	"sort"
 	"strings"
 	"time"
 
@@ -21,6 +22,8 @@ import (
 	"github.com/dominant-strategies/go-quai/consensus/misc"
 	"github.com/dominant-strategies/go-quai/core"
 	"github.com/dominant-strategies/go-quai/core/types"
+	"github.com/dominant-strategies/go-quai/core/vm"
+	"github.com/dominant-strategies/go-quai/crypto"
 	"github.com/dominant-strategies/go-quai/params"
 	"github.com/dominant-strategies/go-quai/verifshim/vx"
 )
@@ -186,6 +189,9 @@ func c20Menu() []c20Conv {
 			}
 		}
 	}
+	// a conversion made by contract code: k0 calls the factory, which CREATEs a child (endowment =
+	// amount + margin) whose constructor executes CONVERT and then stops (Amt 0) or reverts (Amt 1)
+	out = append(out, c20Conv{"contract->qi", 0, 0, 0}, c20Conv{"contract->qi", 1, 0, 0})
 	for _, d := range []int{6, 4} { // spend a denomination-6 / denomination-4 output
 		for _, s := range c20Slips {
 			out = append(out, c20Conv{"qi->quai", d, s, 0})
@@ -200,6 +206,9 @@ func (cv c20Conv) String() string {
 
 // c20Inject creates the conversion transaction; returns nil if not applicable.
 func c20Inject(s *scen, cv c20Conv, nonceOff uint64) *types.Transaction {
+	if cv.Dir == "contract->qi" {
+		return c20FactoryCall(s, cv.Amt == 1, nonceOff)
+	}
 	var slip []byte
 	if cv.Slip > 0 {
 		slip = []byte{byte(cv.Slip >> 8), byte(cv.Slip)}
@@ -231,6 +240,84 @@ func c20Inject(s *scen, cv c20Conv, nonceOff uint64) *types.Transaction {
 	return nil
 }
 
+// ---- contract-originated conversions ---------------------------------------------------------
+
+const c20EtxGas = 100000
+
+var c20ContractAmount = new(big.Int).Set(params.MinQuaiConversionAmount)
+var c20ContractMargin = new(big.Int).Mul(c20Pow10(18), big.NewInt(1000)) // covers the prepaid fee gasPrice x 21000 of CONVERT
+
+// c20FactoryRuntime: CREATE(value = CALLVALUE, init code = calldata); STOP.
+func c20FactoryRuntime() []byte {
+	a := &c02Asm{}
+	a.Op(vm.CALLDATASIZE).Push(0).Push(0).Op(vm.CALLDATACOPY)
+	a.Op(vm.CALLDATASIZE).Push(0).Op(vm.CALLVALUE).Op(vm.CREATE, vm.STOP)
+	return a.Bytes()
+}
+
+// c20Pad appends dead bytes to code until CreateAddress(creator, nonce, code) is an in-zone Quai
+// address (so that the creation does not depend on address grinding and can be put in the access list).
+func c20Pad(creator common.Address, nonce uint64, code []byte) ([]byte, common.Address) {
+	for n := 0; n < 1<<16; n++ {
+		c := append(append([]byte{}, code...), 0x00, byte(n>>8), byte(n))
+		addr := crypto.CreateAddress(creator, nonce, c, core.VZoneLoc)
+		if _, err := addr.InternalAndQuaiAddress(); err == nil {
+			return c, addr
+		}
+	}
+	panic("harness: no in-zone creation address found")
+}
+
+// c20FactoryInit: init code deploying the factory runtime, and the factory's address for (k1, nonce).
+func c20FactoryInit(s *scen, nonce uint64) ([]byte, common.Address) {
+	rt := c20FactoryRuntime()
+	a := &c02Asm{}
+	a.MStoreBytes(0, rt)
+	a.Push(uint64(len(rt))).Push(0).Op(vm.RETURN)
+	return c20Pad(s.k[1].Addr, nonce, a.Bytes())
+}
+
+var c20Factory common.Address // set by c20DeployFactory for the scenario being run
+var c20Children []common.Address // predicted children of the factory calls of the scenario being run
+
+func c20DeployFactory(s *scen) error {
+	nonce := s.nonce(s.k[1]) // deployed by k1: k0's next nonce belongs to the prefix's own conversion
+	init, addr := c20FactoryInit(s, nonce)
+	tx := s.n.QuaiTxAL(s.k[1], nonce, nil, common.Big0, 1500000, new(big.Int).Mul(scenPrice, big.NewInt(3)), init, types.AccessList{{Address: addr}})
+	if errs := s.n.AddTxs(tx); errs[0] != nil {
+		return fmt.Errorf("factory deployment refused: %v", errs[0])
+	}
+	c20Factory = addr
+	c20Children = nil
+	return nil
+}
+
+// c20FactoryCall: k0 calls the factory with the child's init code: CONVERT(amount -> Qi address q1),
+// then STOP or REVERT. nonceOff counts the conversions of k0 injected before this one in the set.
+func c20FactoryCall(s *scen, revert bool, nonceOff uint64) *types.Transaction {
+	a := &c02Asm{}
+	a.Push(c20EtxGas).PushBig(c20ContractAmount).PushAddr(s.q[1].Addr).Push(0).Op(vm.CONVERT, vm.POP)
+	if revert {
+		a.Push(0).Push(0).Op(vm.REVERT)
+	} else {
+		a.Op(vm.STOP)
+	}
+	st, err := s.n.VStateAt(s.n.Heads[2])
+	if err != nil {
+		panic("harness: state at head: " + err.Error())
+	}
+	fi, _ := c20Factory.InternalAddress()
+	if st.GetCodeSize(fi) == 0 {
+		panic("harness: the factory contract is not deployed")
+	}
+	init, child := c20Pad(c20Factory, st.GetNonce(fi), a.Bytes()) // at most one factory call per set
+	c20Children = append(c20Children, child)
+	to := c20Factory
+	value := new(big.Int).Add(c20ContractAmount, c20ContractMargin)
+	al := types.AccessList{{Address: c20Factory}, {Address: child}, {Address: s.q[1].Addr}}
+	return s.n.QuaiTxAL(s.k[0], s.nonce(s.k[0])+nonceOff, &to, value, 1500000, new(big.Int).Mul(scenPrice, big.NewInt(3)), init, al)
+}
+
 const c20Prefix = "zpczpzpzzzz" // Qi outputs of q0 exist and are unlocked; several prime blocks behind us
 const c20Drain = "zpzpzpzzzzz"
 
@@ -240,16 +327,29 @@ func c20RunSet(set []c20Conv) (string, string, string) {
 		return "harness", err.Error(), ""
 	}
 	defer s.close()
-	if err := s.runWord(c20Prefix); err != nil {
+	if err := s.runWord(c20Prefix[:2]); err != nil {
+		return "harness", "prefix: " + err.Error(), ""
+	}
+	if err := c20DeployFactory(s); err != nil { // included in the third block of the prefix
+		return "harness", err.Error(), ""
+	}
+	if err := s.runWord(c20Prefix[2:]); err != nil {
 		return "harness", "prefix: " + err.Error(), ""
 	}
 	startBlocks := len(s.blocks)
 	var nq, nqi uint64
 	admitted := 0
+	factoryCalls := 0
 	for _, cv := range set {
 		off := nq
 		if cv.Dir == "qi->quai" {
 			off = nqi
+		}
+		if cv.Dir == "contract->qi" {
+			if factoryCalls > 0 {
+				continue // the child address is predicted for the factory's current nonce: one call per set
+			}
+			factoryCalls++
 		}
 		tx := c20Inject(s, cv, off)
 		if tx == nil {
@@ -257,16 +357,23 @@ func c20RunSet(set []c20Conv) (string, string, string) {
 		}
 		if errs := s.n.AddTxs(tx); errs[0] == nil {
 			admitted++
-			if cv.Dir == "quai->qi" {
+			if cv.Dir != "qi->quai" {
 				nq++
 			} else {
 				nqi++
 			}
+		} else if cv.Dir == "contract->qi" {
+			return "harness", "factory call refused by the pool: " + errs[0].Error(), ""
 		}
 	}
 	balK1 := s.n.VBalance(s.k[1].Addr)
 	if err := s.runWord(c20Drain); err != nil {
 		return "harness", "drain: " + err.Error(), ""
+	}
+	// ---- origin ledger: the Quai accounts that convert (k0, the factory, the children) lose exactly
+	// what the conversions emitted by the block carry away plus k0's gas, block by block
+	if key, desc := c20OriginLedger(s, startBlocks, set); key != "" {
+		return key, desc, ""
 	}
 	// ---- monitor
 	type emitted struct {
@@ -389,6 +496,119 @@ func c20RunSet(set []c20Conv) (string, string, string) {
 		cls = []string{fmt.Sprintf("none(admitted=%d)", admitted)}
 	}
 	return "", "", strings.Join(cls, "+")
+}
+
+func c20OriginLedger(s *scen, startBlocks int, set []c20Conv) (string, string) {
+	group := map[[20]byte]common.Address{s.k[0].Addr.Bytes20(): s.k[0].Addr, c20Factory.Bytes20(): c20Factory} // keyed by the bytes: common.Address holds a pointer
+	for _, ch := range c20Children {
+		group[ch.Bytes20()] = ch
+	}
+	for _, b := range s.blocks[startBlocks:] {
+		for _, e := range b.OutboundEtxs() {
+			if e.EtxType() == types.ConversionType && e.To().IsInQiLedgerScope() { // Quai -> Qi: the sender is a Quai account
+				group[e.ETXSender().Bytes20()] = e.ETXSender() // children of the factory
+			}
+		}
+	}
+	sumAt := func(blk *types.WorkObject) (*big.Int, error) {
+		st, err := s.n.VStateAt(blk)
+		if err != nil {
+			return nil, err
+		}
+		t := new(big.Int)
+		for _, a := range group {
+			if ia, err := a.InternalAddress(); err == nil {
+				t.Add(t, st.GetBalance(ia))
+			}
+		}
+		return t, nil
+	}
+	for i := startBlocks; i < len(s.blocks); i++ {
+		b := s.blocks[i]
+		before, err := sumAt(s.blocks[i-1])
+		if err != nil {
+			return "harness", "state before block: " + err.Error()
+		}
+		after, err := sumAt(b)
+		if err != nil {
+			return "harness", "state after block: " + err.Error()
+		}
+		expect := new(big.Int)
+		var parts []string
+		for _, e := range b.OutboundEtxs() {
+			if _, in := group[e.ETXSender().Bytes20()]; !in {
+				continue
+			}
+			carried := new(big.Int).Set(e.Value())
+			if !e.ETXSender().Equal(s.k[0].Addr) { // emitted by contract code: the prepaid fee travels with it
+				for _, t := range b.Transactions() {
+					if t.Type() == types.QuaiTxType && t.Hash() == e.OriginatingTxHash() {
+						carried.Add(carried, new(big.Int).Mul(t.GasPrice(), new(big.Int).SetUint64(e.Gas())))
+					}
+				}
+			}
+			expect.Add(expect, carried)
+			parts = append(parts, fmt.Sprintf("etx{type=%d from=%x value=%v}", e.EtxType(), e.ETXSender().Bytes()[:3], e.Value()))
+		}
+		receipts := s.n.VReceipts(b)
+		for j, t := range b.Transactions() {
+			switch {
+			case t.Type() == types.QuaiTxType:
+				from, err := types.Sender(s.n.Signer(), t)
+				if err == nil && from.Equal(s.k[0].Addr) && j < len(receipts) {
+					fee := new(big.Int).Mul(t.GasPrice(), new(big.Int).SetUint64(receipts[j].GasUsed))
+					expect.Add(expect, fee)
+					parts = append(parts, fmt.Sprintf("gas{%d x %v}", receipts[j].GasUsed, t.GasPrice()))
+				}
+			case t.Type() == types.ExternalTxType && t.To() != nil && j < len(receipts) && receipts[j].Status == types.ReceiptStatusSuccessful:
+				credited := *t.To()
+				if t.EtxType() == types.ConversionRevertType {
+					credited = t.ETXSender() // a refused conversion is paid back to its sender
+				}
+				if !c20In(group, credited) {
+					continue
+				}
+				expect.Sub(expect, t.Value())
+				parts = append(parts, fmt.Sprintf("inbound{type=%d value=%v}", t.EtxType(), t.Value()))
+			}
+		}
+		debit := new(big.Int).Sub(before, after)
+		if debit.Cmp(expect) != 0 {
+			what := "origin:debit-differs-from-emitted-conversions"
+			var per []string
+			sb, _ := s.n.VStateAt(s.blocks[i-1])
+			sa, _ := s.n.VStateAt(b)
+			for _, a := range group {
+				if ia, err := a.InternalAddress(); err == nil {
+					per = append(per, fmt.Sprintf("%x: %v -> %v", a.Bytes()[:3], sb.GetBalance(ia), sa.GetBalance(ia)))
+				}
+			}
+			for j, t := range b.Transactions() {
+				st := -1
+				if j < len(receipts) {
+					st = int(receipts[j].Status)
+				}
+				to := "nil"
+				if t.To() != nil {
+					to = fmt.Sprintf("%x", t.To().Bytes()[:3])
+				}
+				et := -1
+				if t.Type() == types.ExternalTxType {
+					et = int(t.EtxType())
+				}
+				per = append(per, fmt.Sprintf("tx%d{type=%d etxtype=%d to=%s value=%v status=%d}", j, t.Type(), et, to, t.Value(), st))
+			}
+			per = append(per, fmt.Sprintf("receipts=%d", len(receipts)))
+			sort.Strings(per)
+			return what, fmt.Sprintf("set %v, block at height %d: the converting Quai accounts (k0, factory, children) lost %v, the block's emitted ETXs, gas and credits account for %v (%v); balances: %v", set, b.NumberU64(2), debit, expect, parts, per)
+		}
+	}
+	return "", ""
+}
+
+func c20In(group map[[20]byte]common.Address, a common.Address) bool {
+	_, ok := group[a.Bytes20()]
+	return ok
 }
 
 func c20OutputsOf(s *scen, h common.Hash) *big.Int {
